@@ -785,7 +785,9 @@ class DeliverSm(SubmitSm):
             index = str_end + 1
             return param, value
 
-        self._parsed_receipt = {}
+        # Filled locally and memorised only when the whole text has been parsed: a text that cannot be
+        # parsed raises on every call instead of leaving a truncated result behind
+        parsed_receipt: Dict[str, Any] = {}
         index: int = 0
         rcpt_param: Optional[str]
         rcpt_value: Optional[str]
@@ -794,15 +796,15 @@ class DeliverSm(SubmitSm):
             if rcpt_param is None or rcpt_value is None:
                 break
             if rcpt_param in ('sub', 'dlvrd', 'err'):
-                self._parsed_receipt[rcpt_param] = int(rcpt_value)
+                parsed_receipt[rcpt_param] = int(rcpt_value)
             elif rcpt_param in ('submit date', 'done date'):
-                self._parsed_receipt[rcpt_param] = datetime.strptime(rcpt_value, '%y%m%d%H%M')
+                parsed_receipt[rcpt_param] = datetime.strptime(rcpt_value, '%y%m%d%H%M')
             elif rcpt_param in ('id', 'stat', 'text'):
-                self._parsed_receipt[rcpt_param] = rcpt_value
+                parsed_receipt[rcpt_param] = rcpt_value
             else:
-                self._parsed_receipt[rcpt_param] = rcpt_value
+                parsed_receipt[rcpt_param] = rcpt_value
 
-        smsc_message_id: Optional[str] = self._parsed_receipt.get(
+        smsc_message_id: Optional[str] = parsed_receipt.get(
             'id'
         )  # Get message ID from report data
         if not smsc_message_id and self.optional_params:
@@ -816,8 +818,9 @@ class DeliverSm(SubmitSm):
                 None,
             )
             if id_param:
-                self._parsed_receipt['id'] = id_param.value
+                parsed_receipt['id'] = id_param.value
 
+        self._parsed_receipt = parsed_receipt
         return self._parsed_receipt
 
     @staticmethod
